@@ -53,6 +53,6 @@ cfg('gen4_t', extra_lines=GEN, inv=['Inv_Conservation'], **dict(C07NLA, Sites='{
 # one bucket holding ejectable / open / ejectable molecules + a later fragment joining the open one (5 fragments), and
 # a molecule whose second fragment extends its right border + unrelated fragment + late joiner (4 fragments): plain
 # fragments (start-or-end matching lets a later fragment join by its END), cache 6, lengths {1,3}
-PLAIN5 = dict(Kind='"plain"', CacheSize=6, Strands='{0}', Sites='{0,1,2}', Lens='{1, 3}', Umis='{0, 1}', MaxFrags=5, Scheds='{1000, 0}', Poolings='{0, 1}')
+PLAIN5 = dict(Kind='"plain"', CacheSize=6, Strands='{0}', Sites='{0,2}', Lens='{1, 3}', Umis='{0, 1, 6}', MaxFrags=5, Scheds='{1000, 0}', Poolings='{0, 1}')
 cfg('c07plain5_t', **PLAIN5)
-cfg('genplain5_t', extra_lines=GEN, inv=['Inv_Conservation'], **dict(PLAIN5, Scheds='{0}'))
+cfg('genplain5_t', extra_lines=GEN, inv=['Inv_Conservation'], **dict(PLAIN5, Scheds='{0}', Poolings='{0}'))   # the driver runs both pooling methods
